@@ -671,9 +671,12 @@ def run(ctx):
         if bcases:
             samples.append({"operator": {"n": bcases[0]["n"], "terms": bcases[0]["terms"][:6]}, "bond_dims": bres[0]["bd"], "min_cover_per_cut": bres[0]["exp"]})
 
-    # ---- scale probe (implementation only): long chains, augmenting path of length n
-    sizes = [300, 1500] if quick else [300, 900, 1500, 5000]
-    rc_s, res_s, out_s = ctx.impl("c20_scale.py", {"sizes": sizes}, timeout=600)
+    # ---- scale probe (implementation only): alternating / augmenting paths longer than the recursion limit
+    #  chain: both algorithms (Hungarian failure = known finding); path: Hopcroft-Karp + new_konig on a long
+    #  alternating path; thin-operator: 2-site operator built with Hopcroft-Karp, bond must be n + 1
+    scale_payload = {"chain": [300, 1500], "path": [300, 3000, 5000], "thin_operator": [3000]} if quick else \
+        {"chain": [300, 900, 1500, 5000], "path": [300, 3000, 5000, 20000], "thin_operator": [3000, 6000]}
+    rc_s, res_s, out_s = ctx.impl("c20_scale.py", scale_payload, timeout=900)
     scale_bad = []
     recursion_hit = []
     if res_s is None:
@@ -681,11 +684,13 @@ def run(ctx):
     else:
         for r in res_s["res"]:
             ev += 1
-            if not r["ok"] and r.get("err") == "RecursionError" and r["algo"] == "Hungarian":
+            if not r["ok"] and r.get("err") == "RecursionError" and r["algo"] == "Hungarian" and r["what"] == "chain":
                 recursion_hit.append(r)
-            elif not r["ok"] or not r["valid"] or r["size"] != r["n"]:
+            elif not r["ok"] or not r["valid"] or r["size"] != r["expected"]:
                 scale_bad.append(r)
-    hist["scale_probe"] = {"sizes": sizes, "recursion_errors": len(recursion_hit), "other_failures": len(scale_bad)}
+    sizes = scale_payload["chain"]
+    hist["scale_probe"] = dict(scale_payload, hungarian_recursion_errors=len(recursion_hit), other_failures=len(scale_bad),
+                               hopcroft_karp_runs_ok=sum(1 for r in (res_s or {}).get("res", []) if r["algo"] == "Hopcroft-Karp" and r["ok"]))
 
     # ---- report
     if not (ok_build and ok_props):
@@ -715,9 +720,18 @@ def run(ctx):
                       {"smallest_failing_chain": r0["n"], "python_recursion_limit": 1000}, found=True,
                       repro=REPRO_CHAIN % {"n": r0["n"], "algo": "Hungarian"})
     if scale_bad:
-        r0 = scale_bad[0]
-        ctx.violation("scale-cover", "oracle: invalid / non-minimum cover or exception on a long chain graph", {"observed": scale_bad}, found=True,
-                      repro=REPRO_CHAIN % {"n": r0["n"], "algo": r0["algo"]})
+        r0 = min(scale_bad, key=lambda r: (r["what"] != "path", r["n"]))
+        if r0["what"] == "chain":
+            repro = REPRO_CHAIN % {"n": r0["n"], "algo": r0["algo"]}
+        else:
+            src = open(os.path.join(common.VERIF, "harness", "impl", "c20_scale.py")).read()
+            src = src[:src.rindex("main()")]
+            call = "cover_result(path(%d), %r, %d)" % (r0["n"], r0["algo"], r0["n"]) if r0["what"] == "path" \
+                else "thin_operator(%d, %r)" % (r0["n"], r0["algo"])
+            repro = src + "\nr = %s\nprint(r)\nsys.exit(0 if (r['ok'] and r['valid'] and r['size'] == r['expected']) else 1)\n" % call
+        ctx.violation("scale-cover", "oracle: exception / invalid / non-minimum cover (or wrong bond dimension) on a structure with an alternating path longer than the recursion limit: %s(n=%d) with %s -> %s (expected size %d by an explicit matching certificate)"
+                      % (r0["what"], r0["n"], r0["algo"], r0.get("err") or ("size %s valid %s" % (r0.get("size"), r0.get("valid"))), r0["expected"]),
+                      {"observed": scale_bad}, found=True, repro=repro)
     if bond_bad:
         src = open(os.path.join(common.VERIF, "harness", "impl", "c20_bond.py")).read()
         src = src[:src.rindex("main()")]
@@ -730,7 +744,7 @@ def run(ctx):
                        "replayed": b0, "first": bond_bad[:3]}, found=True, repro=repro)
 
     ctx.notes.append("witness validity: %d SciPy matchings checked by valid_matching, failures: %d" % (witness_checked, len(bad.get("witness-invalid", []))))
-    ctx.notes.append("scale probe (chains %s): RecursionError on the Hungarian path for %s; reported under key hungarian-recursion-limit" % (sizes, [r["n"] for r in recursion_hit]))
+    ctx.notes.append("scale probe %s: RecursionError on the Hungarian path for chains %s (key hungarian-recursion-limit); Hopcroft-Karp failures: %d" % (scale_payload, [r["n"] for r in recursion_hit], sum(1 for r in scale_bad if r["algo"] == "Hopcroft-Karp")))
     ctx.notes.append("edge-less graphs on the Hopcroft-Karp path (IndexError): %d observed; reported under key hk-edgeless-graph" % len(edgeless_hit))
     return {"evaluations": ev, "distinct_nontrivial": len(keys_nontrivial),
             "rule": "one evaluation = one (graph, algorithm) cover compared with the Coq model and the brute-force oracle, or one (operator, algorithm) bond-dimension vector compared with brute-force minimum covers at every cut; distinct_nontrivial counts distinct adjacency lists with at least one edge and maximum matching >= 2 whose covers (both algorithms) matched model and oracle",
